@@ -40,6 +40,12 @@ CHECKS = {
     "C12": ("property-based testing over programs x sequences of extra pass runs; snapshot equality; hook counters for the sweep bound",
             "Generated-input search: the snapshot of facts/edges/diagnostics after the pipeline must equal the snapshot after 0-6 extra pass runs and that of a second fresh analysis; sweeps are bounded linearly in the node count via deterministic counters. Exploration.",
             "Sweep counters from the guarded hook commit.", "5/C12"),
+    "C13": ("property-based testing: metamorphic relation (meaning-preserving rewrites: surface style + pseudo/official expansion with operand maps)",
+            "Generated-input search: each program is rendered canonically and rewritten (23 pseudo-instruction rules + every surface freedom at every site); the located diagnostic multisets must be equal. Exploration.",
+            "Trusts the renderer's source map and the transcription of the official expansions.", "5/C13"),
+    "C14": ("property-based testing: metamorphic relation (injective label renaming, permutations within the temporary and the saved register class)",
+            "Generated-input search: renamed programs must get the same located diagnostics with registers mapped through the permutation. Exploration.",
+            "Trusts the renderer's source map.", "5/C14"),
     "C16": ("property-based testing with fault injection: CFG-level faults of 12 kinds injected into parse-clean generated programs",
             "Generated-input search: undefined/duplicate labels must be named at an occurrence; every other error that stops the analysis must be specific, attached to a user file and located. Exploration.",
             "Label definitions/uses are computed from the model, locations through the renderer's source map.", "5/C16"),
